@@ -472,6 +472,8 @@ def intrinsic (d : Dialect) (name : String) (args : List Val) : CM Val := do
       | some w => pure (match resKind with | some .i32 => .i32 (f w) | some .u32 => .u32 (f w) | _ => likeInt v (f w))
       | none => throw (.stuck (name ++ " operand"))) x
   let popc (w : W) : W := BitVec.ofNat 32 (popcount w)
+  let fl1 (f : Float32 → Float32) (x : Val) : CM Val :=
+    vmap (fun v => match v with | .f32 a => pure (.f32 (fun1 f a)) | _ => throw (.stuck (name ++ " operand"))) x
   match d, name, args with
   -- all dialects
   | _, "abs", [x] => vmap (absScalar d) x
@@ -479,6 +481,18 @@ def intrinsic (d : Dialect) (name : String) (args : List Val) : CM Val := do
   | _, "sign", [x] => vmap (fun v => match v with
       | .i32 a => pure (.i32 (if a.toInt > 0 then 1#32 else if a.toInt < 0 then 0xFFFFFFFF#32 else 0#32))
       | _ => throw (.unsupported "function sign on a non-integer")) x
+  -- rounding to an integral value (exact; the languages differ only in the direction of ties)
+  | _, "floor", [x] => fl1 Float32.floor x
+  | _, "ceil", [x] => fl1 Float32.ceil x
+  | _, "trunc", [x] => fl1 fTruncF x
+  | .hlsl, "round", [x] => fl1 fRoundEvenF x          -- HLSL: "halfway cases are rounded to the nearest even"
+  | .msl, "round", [x] => fl1 fRoundAwayF x           -- MSL §6.5: "rounding halfway cases away from zero"
+  | .msl, "rint", [x] => fl1 fRoundEvenF x            -- MSL: round to integral value using round-to-nearest-even
+  | .glsl, "roundEven", [x] => fl1 fRoundEvenF x
+  | .glsl, "round", [x] => vmap (fun v => match v with  -- GLSL §8.3: "the fraction 0.5 will round in a direction chosen by the implementation"
+      | .f32 a => if fIsTieF (f32OfBits a) then throw (.stuck "round() on a tie: GLSL leaves the direction to the implementation (roundEven is the defined one)")
+                  else pure (.f32 (fun1 fRoundEvenF a))
+      | _ => throw (.stuck "round operand")) x
   | _, "min", [x, y] => vzip (minMaxScalar d true) x y
   | _, "max", [x, y] => vzip (minMaxScalar d false) x y
   | _, "clamp", [x, lo, hi] => do
